@@ -533,9 +533,12 @@ func (s Subtitles) WriteToWebVTT(o io.Writer) (err error) {
 	}
 
 	// Add regions
+	// Loop through the keys of the map, which is what the regions are fetched with afterwards
 	var k []string
-	for _, region := range s.Regions {
-		k = append(k, region.ID)
+	for id, region := range s.Regions {
+		if region != nil {
+			k = append(k, id)
+		}
 	}
 
 	sort.Strings(k)
